@@ -54,10 +54,10 @@ impl<T: Debug> WorkStealQueue<T> {
 
     /// Push an element to the global queue.
     pub fn push(&self, item: T) {
+        // count first, with an atomic add: the counter must never under-report,
+        // otherwise the fast path of `pop` strands items
+        _ = self.len.fetch_add(1, Ordering::AcqRel);
         self.shared_queue.push(item);
-        //add count
-        self.len
-            .store(self.len().saturating_add(1), Ordering::Release);
     }
 
     /// Pop an element from the global queue.
@@ -70,8 +70,11 @@ impl<T: Debug> WorkStealQueue<T> {
             match self.shared_queue.steal() {
                 Steal::Success(item) => {
                     // Decrement the count.
-                    self.len
-                        .store(self.len().saturating_sub(1), Ordering::Release);
+                    _ = self
+                        .len
+                        .fetch_update(Ordering::AcqRel, Ordering::Acquire, |len| {
+                            Some(len.saturating_sub(1))
+                        });
                     return Some(item);
                 }
                 Steal::Retry => {}
